@@ -47,7 +47,7 @@ const (
 var kindName = []string{"minute", "hour", "day", "changeset"}
 var kindDir = []string{"minute", "hour", "day", "changesets"}
 
-const changesetFirst = 2007990   // first changeset sequence with a state file
+const changesetFirst = 2007990    // first changeset sequence with a state file
 const changesetOffByOne = 2008004 // from this file on, the number inside is name-1
 
 const defaultPlanet = "https://planet.osm.org"
